@@ -263,10 +263,38 @@ def probe_cfg(ctx, cfg, rng):
     tr = make_tracer(cfg)
     if degenerate_uniform(cfg):
         # zero-length leg on a boundary: C18's open known finding (zero direction vectors / ValueError); only exists <-> non-empty here
+        key_cfg = json.dumps(cfg, sort_keys=True)
         with np.errstate(all="ignore"):
             if bool(tr.exists) != (len(tr.solutions) > 0):
-                ctx.fail("uniform:exists:%s" % json.dumps(cfg, sort_keys=True), "uniform tracer: exists=%r but %d solutions; %s" % (tr.exists, len(tr.solutions), json.dumps(cfg)),
+                ctx.fail("uniform:exists:%s" % key_cfg, "uniform tracer: exists=%r but %d solutions; %s" % (tr.exists, len(tr.solutions), json.dumps(cfg)),
                          {"kind": "sym", "what": "exists", "cfg": cfg})
+
+            # The open finding concerns the DIRECTIONS of a zero-length leg (and a ValueError when both end points lie on the
+            # mirror).  The number of solutions and their lengths are well defined by the method of images and must be the same
+            # for the swapped pair: judged here.
+            def lengths(t_):
+                out = []
+                for s_ in t_.solutions:
+                    try:
+                        out.append(float(s_.path_length))
+                    except ValueError:
+                        out.append(None)       # both end points on the mirror: the known ValueError
+                return out
+            swapped = dict(cfg, **{"from": cfg["to"], "to": cfg["from"]})
+            for label, c_, t_ in (("as given", cfg, tr), ("swapped", swapped, make_tracer(cfg, cfg["to"], cfg["from"]))):
+                exp = U.uniform_expected(c_) or []
+                got = lengths(t_)
+                if len(got) != len(exp):
+                    ctx.fail("uniform:boundary-count:%s:%s" % (label, key_cfg),
+                             "uniform tracer with an end point exactly on a boundary (%s): %d solutions, the method of images gives %d (lengths %r); %s" % (
+                                 label, len(got), len(exp), [e["length"] for e in exp], json.dumps(c_)), {"kind": "sym", "what": "boundary count", "cfg": cfg})
+                    continue
+                for g, e in zip(got, exp):
+                    if g is not None and abs(g - e["length"]) > 64 * U.EPS * (e["k"] + 2) * (e["length"] + 1 + max(abs(x) for x in c_["from"] + c_["to"])):
+                        ctx.fail("uniform:boundary-length:%s:%s" % (label, key_cfg),
+                                 "uniform tracer with an end point exactly on a boundary (%s): solution k=%d first=%+d has length %r, distance to the mirrored receiver is %r; %s" % (
+                                     label, e["k"], e["d"], g, e["length"], json.dumps(c_)), {"kind": "sym", "what": "boundary length", "cfg": cfg})
+                        break
         return
     try:
         ex, o = observe(tr)
@@ -447,6 +475,11 @@ def probes(ctx, scale):
     # the F2 witness (fixed by b971f54): reflections with a source away from x = y = 0
     probe_cfg(ctx, {"kind": "uniform", "ice": {"n": 1.5, "lo": -500.0, "hi": 0.0, "above": 1.0, "below": 1.8},
                     "from": [100.0, 50.0, -100.0], "to": [400.0, 50.0, -200.0], "max_reflections": 1}, rng)
+    # source / receiver exactly on a reflecting surface, 1..3 reflections (count and lengths by the method of images, both orders)
+    for zf, zt, lo, hi, below in ((0.0, -200.0, -500.0, 0.0, 1.8), (-500.0, -120.0, -500.0, 0.0, 1.8), (-20.0, -20.0, -300.0, -20.0, None), (-60.0, 0.0, -300.0, 0.0, 2.2)):
+        for mr in (1, 2, 3):
+            probe_cfg(ctx, {"kind": "uniform", "ice": {"n": 1.5, "lo": lo, "hi": hi, "above": 1.0, "below": below},
+                            "from": [10.0, -5.0, zf], "to": [310.0, 95.0, zt], "max_reflections": mr}, rng)
     # exactly vertical rays (launch angle exactly 0.0): antenna directly above / below the vertex
     for kind in ("specialized", "basic"):
         for f, t in (([10.0, 20.0, -500.0], [10.0, 20.0, -100.0]), ([10.0, 20.0, -100.0], [10.0, 20.0, -500.0])):
